@@ -2,4 +2,5 @@ pub mod gamma;
 pub mod graph;
 pub mod jfun;
 pub mod lin;
+pub mod path;
 pub mod sym;
